@@ -44,6 +44,32 @@ func (it *c13Iter) Next() interface{} {
 
 var c13EnvNames = []string{"e0", "e1", "e2", "e3"}
 
+// A data set can come in a second "theme": the name "e0~b" is the plain data of e0 with other *function-valued*
+// data - a partial feeder that serves other texts under the same partial names (one name exists only there, one
+// fails only in the base theme) and helpers wrap/up that are bound to other functions. Context data is data:
+// two contexts that differ only in what their feeder or helpers return are different data for the same
+// template text. Themed names are used by C13 only (they are not in c13EnvNames).
+const c13ThemeSep = "~"
+
+func c13SplitEnv(name string) (base, theme string) {
+	if i := strings.Index(name, c13ThemeSep); i >= 0 {
+		return name[:i], name[i+1:]
+	}
+	return name, ""
+}
+
+var c13PartialsB = map[string]string{
+	"p_plain":   `(P=<%= x %>)`,
+	"p_loop":    `<%= for (i, v) in xs { %><%= i %>:<%= v %>;<% } %>`,
+	"p_nest":    `<%= partial("p_plain", {x: y}) %>?<%= y %>`,
+	"p_tick":    `{T<%= tick() %>/<%= tick() %>}`,
+	"p_layout":  `<M><%= yield %></M>`,
+	"p_err":     `[no error here]`,
+	"p_if":      `<%= if (x) { %>on<% } else { %>off<% } %>`,
+	"p_fn":      `<% let pf = fn(a) { return a * 2 } %><%= pf(x) %>`,
+	"p_missing": `[found <%= n %>]`,
+}
+
 var c13Partials = map[string]string{
 	"p_plain":  `[p:<%= x %>]`,
 	"p_loop":   `<%= for (v) in xs { %><%= v %>,<% } %>`,
@@ -59,7 +85,52 @@ var c13Partials = map[string]string{
 // builds fresh values, so a template that mutates a slice or map cannot influence another execution. The
 // helpers are pure functions of their arguments (and of the block they are given) and touch no shared state.
 func c13EnvShared(name string) map[string]interface{} {
+	name, theme := c13SplitEnv(name)
+	d := c13EnvSharedBase(name)
+	if theme != "" {
+		d["partialFeeder"] = func(n string) (string, error) {
+			if p, ok := c13PartialsB[n]; ok {
+				return p, nil
+			}
+			return "", fmt.Errorf("theme %s has no partial %q", theme, n)
+		}
+		d["up"] = func(s string) string { return strings.ToUpper(s) + "^" }
+		d["wrap"] = func(help plush.HelperContext) (template.HTML, error) {
+			s, err := help.Block()
+			if err != nil {
+				return "", err
+			}
+			return template.HTML("<W>" + s + "</W>"), nil
+		}
+	}
+	return d
+}
+
+// c13SetV is the helper setv(coll, at, v): it stores v into the slice or map it is given, in place (what a Go
+// helper that sorts or fills its argument does), and prints nothing.
+func c13SetV(coll, at, v interface{}) (string, error) {
+	switch c := coll.(type) {
+	case []interface{}:
+		i, ok := at.(int)
+		if !ok || i < 0 || i >= len(c) {
+			return "", fmt.Errorf("setv: no element %v in a list of %d", at, len(c))
+		}
+		c[i] = v
+	case map[string]interface{}:
+		k, ok := at.(string)
+		if !ok || c == nil {
+			return "", fmt.Errorf("setv: %v is not a key", at)
+		}
+		c[k] = v
+	default:
+		return "", fmt.Errorf("setv: cannot store into %T", coll)
+	}
+	return "", nil
+}
+
+func c13EnvSharedBase(name string) map[string]interface{} {
 	d := map[string]interface{}{
+		"setv": c13SetV,
 		"fail": func(msg string) (string, error) { return "", fmt.Errorf("failed: %s", msg) },
 		"up":   func(s string) string { return strings.ToUpper(s) },
 		"add":  func(a, b int) int { return a + b },
@@ -160,6 +231,7 @@ func c13EnvShared(name string) map[string]interface{} {
 // c13EnvLocal returns the per-execution part: the counting helper tick() (1,2,3,... per context), a stateful
 // Go iterator and the execution's identity gid.
 func c13EnvLocal(name string, gid int) map[string]interface{} {
+	name, _ = c13SplitEnv(name)
 	cnt := 0
 	n := 3
 	if name == "e1" {
@@ -441,6 +513,11 @@ type c13GenOpt struct {
 	// NoSharedWrites: no index assignment into data that comes from the environment (in C14 that data is shared
 	// between goroutines through the parent context; writing to it would be the template author's race).
 	NoSharedWrites bool
+	// Wide (C13 only): statements that build a list or hash out of constants (also nested, also with one
+	// evaluated element), update it in place - element assignment, accumulation in a loop, a Go helper that
+	// stores into its argument - and read it back. A value the evaluator hands out for a literal must be the
+	// template's own: if it shared storage with the parsed program, the next execution would see the update.
+	Wide bool
 }
 
 type c13Fn struct {
@@ -520,6 +597,10 @@ func (g *c13Gen) block(sb *strings.Builder, sc *c13Scope, n int) {
 func (g *c13Gen) stmt(sb *strings.Builder, sc *c13Scope) {
 	r := g.r
 	deep := sc.depth >= 3
+	if g.opt.Wide && !sc.pure && r.Chance(7) {
+		g.mutateLocal(sb, sc)
+		return
+	}
 	for tries := 0; tries < 20; tries++ {
 		k := r.Intn(100)
 		switch {
@@ -973,6 +1054,167 @@ func (g *c13Gen) hashLit(sc *c13Scope, effects, safe bool) (string, []string) {
 		g.use("hash-two-failing")
 	}
 	return "{" + strings.Join(parts, ", ") + "}", keys
+}
+
+var c13ConstInts = []string{"0", "1", "2", "7", "10", "-3"}
+var c13ConstStrs = []string{`"-"`, `"none"`, `"<b>"`, `""`, `"x y"`}
+var c13ConstOther = []string{"true", "false", "1.5", "0.25"}
+
+// constant returns a literal constant and whether it is an integer.
+func (g *c13Gen) constant() (string, bool) {
+	switch k := g.r.Intn(100); {
+	case k < 55:
+		return Pick(g.r, c13ConstInts), true
+	case k < 80:
+		return Pick(g.r, c13ConstStrs), false
+	default:
+		return Pick(g.r, c13ConstOther), false
+	}
+}
+
+// constList returns a list literal of n elements and which of them are integers. Usually every element is a
+// literal constant; one time in five one element is evaluated at run time.
+func (g *c13Gen) constList(sc *c13Scope, n int) (string, []bool) {
+	es, isInt := make([]string, n), make([]bool, n)
+	for i := range es {
+		es[i], isInt[i] = g.constant()
+	}
+	if g.r.Chance(20) {
+		i := g.r.Intn(n)
+		es[i], isInt[i] = g.intExpr(sc, 1), true
+		g.use("list-literal-mixed")
+	} else {
+		g.use("list-literal-constants")
+	}
+	return "[" + strings.Join(es, ", ") + "]", isInt
+}
+
+// mutateLocal emits: a value built by the template itself from a literal; 1-3 in-place updates of it; reads.
+func (g *c13Gen) mutateLocal(sb *strings.Builder, sc *c13Scope) {
+	r := g.r
+	switch k := r.Intn(10); {
+	case k < 6: // a list
+		g.use("local-list-update")
+		q := g.fresh("q")
+		n := r.Range(1, 4)
+		lit, isInt := g.constList(sc, n)
+		sb.WriteString("<% let " + q + " = " + lit + " %>")
+		g.updates(sb, sc, q, n, isInt, nil)
+		sc.arrs = append(sc.arrs, q)
+		sc.localArrs = append(sc.localArrs, q)
+	case k < 9: // a hash with distinct keys and constant values
+		g.use("local-hash-update")
+		q := g.fresh("g")
+		n := r.Range(1, 4)
+		keys := append([]string(nil), c13Keys[:n]...)
+		dup := -1
+		if n >= 2 && r.Chance(20) {
+			// one key spelled twice, with constant values: the one later in the source has to win every time
+			g.use("hash-duplicate-key-constants")
+			dup = r.Range(1, n-1)
+			keys[dup] = keys[0]
+		}
+		isInt := make([]bool, n)
+		parts := make([]string, n)
+		for i, key := range keys {
+			var v string
+			v, isInt[i] = g.constant()
+			if r.Chance(25) {
+				key = `"` + key + `"`
+			}
+			parts[i] = key + ": " + v
+		}
+		if dup > 0 {
+			isInt[0] = isInt[dup]
+		}
+		sb.WriteString("<% let " + q + " = {" + strings.Join(parts, ", ") + "} %>")
+		if dup > 0 {
+			sb.WriteString("<%= " + q + `["` + keys[0] + `"] %>;`)
+		}
+		g.updates(sb, sc, q, n, isInt, keys)
+		sc.hashes = append(sc.hashes, c13Hash{q, c13Uniq(keys)})
+	default: // a list inside a list or a hash, updated through a second name
+		g.use("nested-literal-update")
+		q, in := g.fresh("q"), g.fresh("q")
+		n := r.Range(1, 3)
+		lit, isInt := g.constList(sc, n)
+		var outer, path string
+		if r.Bool() {
+			other, _ := g.constList(sc, r.Range(1, 2))
+			outer, path = "["+lit+", "+other+"]", q+"[0]"
+		} else {
+			c, _ := g.constant()
+			outer, path = "{a: "+lit+", b: "+c+"}", q+`["a"]`
+		}
+		sb.WriteString("<% let " + q + " = " + outer + " %><% let " + in + " = " + path + " %>")
+		g.updates(sb, sc, in, n, isInt, nil)
+		i := strconv.Itoa(r.Intn(n))
+		sb.WriteString("<%= " + path + "[" + i + "] %>;")
+	}
+}
+
+// updates emits 1-3 in-place updates of the list (keys == nil) or hash q, each followed at some point by reads.
+func (g *c13Gen) updates(sb *strings.Builder, sc *c13Scope, q string, n int, isInt []bool, keys []string) {
+	r := g.r
+	at := func(i int) string {
+		if keys != nil {
+			return `"` + keys[i] + `"`
+		}
+		return strconv.Itoa(i)
+	}
+	elem := func(i int) string { return q + "[" + at(i) + "]" }
+	for u, nu := 0, r.Range(1, 3); u < nu; u++ {
+		i := r.Intn(n)
+		if keys == nil && r.Chance(6) {
+			// one past the end: an error, the same one on every route
+			sb.WriteString("<% " + q + "[" + strconv.Itoa(n) + "] = 1 %>")
+			continue
+		}
+		switch k := r.Intn(100); {
+		case k < 30 && isInt[i]:
+			sb.WriteString("<% " + elem(i) + " = " + elem(i) + " + " + g.intExpr(sc, 1) + " %>")
+		case k < 55 && isInt[i]:
+			g.use("accumulate-in-loop")
+			v := g.fresh("v")
+			src := Pick(r, []string{"xs", "xs", "range(1, 3)", "[4, 5, 6]", "until(2)"})
+			if r.Bool() {
+				sb.WriteString("<% for (" + v + ") in " + src + " { " + elem(i) + " = " + elem(i) + " + " + v + " } %>")
+			} else {
+				sb.WriteString("<% for (" + v + ") in " + src + " { %><% " + elem(i) + " = " + elem(i) + " + " + v + " %><% } %>")
+			}
+		case k < 75:
+			g.use("helper-stores-into-argument")
+			c, ci := g.constant()
+			sb.WriteString("<% setv(" + q + ", " + at(i) + ", " + c + ") %>")
+			isInt[i] = ci
+		case k < 85 && keys != nil:
+			c, _ := g.constant()
+			sb.WriteString("<% " + q + `["z"] = ` + c + " %><%= " + q + `["z"] %>`)
+		default:
+			if r.Bool() {
+				c, ci := g.constant()
+				sb.WriteString("<% " + elem(i) + " = " + c + " %>")
+				isInt[i] = ci
+			} else {
+				sb.WriteString("<% " + elem(i) + " = " + g.strExpr(sc, 1) + " %>")
+				isInt[i] = false
+			}
+		}
+		if r.Chance(35) {
+			sb.WriteString("<%= " + elem(r.Intn(n)) + " %>")
+		}
+	}
+	switch k := r.Intn(10); {
+	case k < 4 || keys != nil:
+		for i := 0; i < n; i++ {
+			sb.WriteString("<%= " + elem(i) + " %>,")
+		}
+	case k < 8:
+		v := g.fresh("v")
+		sb.WriteString("<%= for (" + v + ") in " + q + " { %><%= " + v + " %>,<% } %>")
+	default:
+		sb.WriteString("<%= " + q + " %>")
+	}
 }
 
 func (g *c13Gen) arrLit(sc *c13Scope) string {
